@@ -448,6 +448,9 @@ func genPowerLoss(prop string) func(r *rng, tier string, res *Result) {
 		if prop == "C09" {
 			c09CloseFaults(r, tier, res)
 		}
+		if prop == "C06" {
+			c06WriteFaults(r, tier, res)
+		}
 		if res.Tags == nil {
 			res.Tags = map[string]int{}
 		}
@@ -522,6 +525,123 @@ func c09CloseFaults(r *rng, tier string, res *Result) {
 					return
 				}
 			}
+		}
+	}
+}
+
+// c06WriteFaults: "once Sync has returned" is the premise of C06 whatever happened in between -- also
+// when a file-system call of an EARLIER operation failed (a transient fsync or write error: that
+// operation reports the error and is not acknowledged). The k-th data call (WriteAt / Sync / Truncate
+// on an open file) after a first sync point fails once, for every k; the history goes on; a later Sync
+// returns nil; the power fails right after it. Every key must hold its value as of that Sync: the
+// value of its last ACKNOWLEDGED write, or -- for a key whose write reported the error -- possibly
+// the value of that write.
+func c06WriteFaults(r *rng, tier string, res *Result) {
+	for _, syncMode := range []bool{false, true} {
+		for k := 0; k < 80; k++ {
+			t := tfs.New()
+			o := &pogreb.Options{FileSystem: t}
+			if syncMode {
+				o.BackgroundSyncInterval = -1
+			}
+			pogreb.VerifSetThresholds(o, 1024, 512, math.Float32frombits(fragBits(0.3)))
+			db, err := pogreb.Open("db", o)
+			if err != nil {
+				return
+			}
+			oracle := newPLOracle()
+			ref := map[string][]byte{}
+			var keys [][]byte
+			var prog []string
+			for i := 0; i < 24; i++ {
+				keys = append(keys, []byte(fmt.Sprintf("key-%02d", i)))
+			}
+			type failed struct {
+				k   string
+				v   []byte
+				del bool
+			}
+			var fails []failed
+			op := func(i int) {
+				kk := keys[r.intn(len(keys))]
+				if i%7 == 6 {
+					if err := db.Delete(kk); err == nil {
+						delete(ref, string(kk))
+						prog = append(prog, fmt.Sprintf("del %s -> ok", kk))
+					} else {
+						fails = append(fails, failed{string(kk), nil, true})
+						prog = append(prog, fmt.Sprintf("del %s -> error %v", kk, err))
+					}
+					return
+				}
+				vv := r.bytes(20 + r.intn(40))
+				if err := db.Put(kk, vv); err == nil {
+					ref[string(kk)] = vv
+					prog = append(prog, fmt.Sprintf("put %s <%d bytes> -> ok", kk, len(vv)))
+				} else {
+					fails = append(fails, failed{string(kk), vv, false})
+					prog = append(prog, fmt.Sprintf("put %s <%d bytes> -> error %v", kk, len(vv), err))
+				}
+			}
+			for i := 0; i < 12+r.intn(10); i++ {
+				op(i)
+			}
+			if err := db.Sync(); err != nil {
+				_ = db.Close()
+				return
+			}
+			prog = append(prog, "sync -> ok")
+			// the faulty stretch
+			t.FailWriteCall = t.WriteCalls + k
+			nops := 30
+			for i := 0; i < nops; i++ {
+				op(i)
+				if i == 2*nops/3 || i == nops-1 {
+					// compaction inside the stretch: its copies, flushes and removals can be the call that
+					// fails; whatever it reports, it changes no contents
+					_, cerr := db.Compact()
+					prog = append(prog, fmt.Sprintf("compact -> %v", cerr))
+				}
+			}
+			reached := t.WriteCalls > t.FailWriteCall
+			t.FailWriteCall = -1
+			if !reached {
+				_ = db.Close()
+				break // fewer than k data calls in the stretch: all injection points done
+			}
+			res.Tags["write_fault_injection_points"]++
+			for i := 0; i < 4+r.intn(6); i++ {
+				op(i)
+			}
+			if err := db.Sync(); err != nil {
+				// not a sync point: C06 says nothing
+				_ = db.Close()
+				continue
+			}
+			prog = append(prog, "sync -> ok", "power failure")
+			oracle.syncedNow(ref)
+			for _, f := range fails {
+				oracle.write(f.k, f.v, f.del) // an operation that reported an error may or may not have taken effect
+			}
+			pcmd := fmt.Sprintf("params 1024 512 %d %d", fragBits(0.3), b2i(syncMode))
+			for _, img := range plImages(r, t.Base(), t.Events(0, t.NumEvents()), t.NumEvents(), tier == "thorough") {
+				res.Tags["power_loss_images_reopened"]++
+				got, errs := readAll(img, "db", pcmd)
+				why := errs
+				if why == "" {
+					why = oracle.check(got, keys)
+				}
+				if why != "" {
+					res.Findings = append(res.Findings, &Finding{Kind: "spec", Case: fmt.Sprintf("C06/write-fault/%v/%d", syncMode, k),
+						Cmd:      fmt.Sprintf("data call number %d after the first Sync (WriteAt/Sync/Truncate on an open file) fails once; a later Sync returns nil; power failure", k),
+						Impl:     []string{why},
+						Expected: []string{"every key holds its value as of the last completed Sync (acknowledged writes; a write that reported the error may or may not count)"},
+						Program:  prog})
+					_ = db.Close()
+					return
+				}
+			}
+			_ = db.Close()
 		}
 	}
 }
